@@ -386,8 +386,8 @@ fn u13_2_conversion_path_reaches_target() {
 // published order; playable-animation lookup and texture flipbooks only up to 263; the view array is a plain count
 // from 264; blend-map overrides iff version >= 260 and flag 0x0800_0000; texture combiner combos iff flag 0x8; texture
 // transforms from Legion (header version >= 273 in this library's numbering).  A harness over the whole 344-byte header
-// (parse + write through Cursor) exhausts CBMC (> 25 GB); the gates are decided on statement blocks of parse, the
-// writer on a header built from symbolic fields.
+// (parse + write through Cursor) exhausts CBMC (> 25 GB); and so does a write-only harness over
+// a header built from symbolic fields; the version / flag gates are decided on statement blocks of parse.
 // ---- U13.3b the version / flag gates of M2Header::parse as statement blocks (E11): cheap, every version and flag word
 use crate::io_ext::ReadExt;
 use crate::header::M2ModelFlags;
@@ -482,83 +482,4 @@ fn u13_3_header_head_gates() {
         assert!(flip.is_none(), "no texture flipbooks from 264");
     }
     assert!(c.position() as usize == o, "bytes consumed = published size of the leading fields");
-}
-
-fn any_arr<T>() -> M2Array<T> {
-    M2Array::new(kani::any(), kani::any())
-}
-
-// M2Header::write: every field at its published offset for the header's version, optional fields exactly when present
-// @harness unit=U13.3 props=C13 kind=bounded bound="header versions 256, 263, 264, 274 (one per layout branch); every count/offset/flag value; optional arrays present or absent" timeout=900 target="header.rs: M2Header::write (published MD20 layout, size by version)" oracle=m2_records
-#[kani::proof]
-#[kani::unwind(6)]
-#[kani::stub(alloc::fmt::format, stub_format)]
-fn u13_3_header_write_layout() {
-    use crate::header::M2Header;
-    let k: u8 = kani::any();
-    kani::assume(k < 4);
-    let version: u32 = match k { 0 => 256, 1 => 263, 2 => 264, _ => 274 };
-    let old = version <= 263;
-    let mv = match M2Version::from_header_version(version) { Some(v) => v, None => return };
-    let mut h = M2Header::new(mv);
-    h.version = version;
-    h.name = any_arr();
-    h.flags = M2ModelFlags::from_bits_retain(kani::any());
-    h.global_sequences = any_arr();
-    h.playable_animation_lookup = if old { Some(any_arr()) } else { None };
-    h.bones = any_arr();
-    h.vertices = any_arr();
-    h.views = if old { any_arr() } else { M2Array::new(0, 0) };
-    h.num_skin_profiles = if old { None } else { Some(kani::any()) };
-    h.texture_flipbooks = if old { Some(any_arr()) } else { None };
-    h.texture_animations = any_arr();
-    h.bounding_sphere_radius = kani::any();
-    h.particle_emitters = any_arr();
-    h.blend_map_overrides = if kani::any() { Some(any_arr()) } else { None };
-    h.texture_combiner_combos = if kani::any() { Some(any_arr()) } else { None };
-    h.texture_transforms = if kani::any() { Some(any_arr()) } else { None };
-    let mut out = [0xAAu8; 344];
-    let n = {
-        let mut w: &mut [u8] = &mut out[..];
-        if let Err(e) = h.write(&mut w) { core::mem::forget(e); assert!(false, "write succeeds"); return; }
-        written(344, w)
-    };
-    let w32 = |o: usize| u32::from_le_bytes([out[o], out[o + 1], out[o + 2], out[o + 3]]);
-    assert!(out[0] == b'M' && out[1] == b'D' && out[2] == b'2' && out[3] == b'0' && w32(4) == version, "magic and version");
-    assert!(w32(8) == h.name.count && w32(12) == h.name.offset && w32(16) == h.flags.bits(), "name at 8, flags at 16");
-    assert!(w32(20) == h.global_sequences.count && w32(24) == h.global_sequences.offset, "global sequences at 20");
-    // published offsets: bones at 0x34 (<= 263, after the playable lookup) / 0x2C; vertices 16 bytes later
-    let bones_at = if old { 52 } else { 44 };
-    if old {
-        let p = h.playable_animation_lookup.as_ref().unwrap();
-        assert!(w32(44) == p.count && w32(48) == p.offset, "playable animation lookup at 0x2C up to 263");
-    }
-    assert!(w32(bones_at) == h.bones.count && w32(bones_at + 4) == h.bones.offset, "bones");
-    assert!(w32(bones_at + 16) == h.vertices.count && w32(bones_at + 20) == h.vertices.offset, "vertices");
-    if old {
-        assert!(w32(bones_at + 24) == h.views.count && w32(bones_at + 28) == h.views.offset, "view array up to 263");
-    } else {
-        assert!(Some(w32(bones_at + 24)) == h.num_skin_profiles, "skin profile count from 264");
-    }
-    // colours, textures, texture weights follow the views; then flipbooks (<= 263), then texture animations
-    let after_views = bones_at + 24 + if old { 8 } else { 4 };
-    let tex_anim_at = after_views + 24 + if old { 8 } else { 0 };
-    if old {
-        let f = h.texture_flipbooks.as_ref().unwrap();
-        assert!(w32(after_views + 24) == f.count && w32(after_views + 28) == f.offset, "texture flipbooks up to 263");
-    }
-    assert!(w32(tex_anim_at) == h.texture_animations.count && w32(tex_anim_at + 4) == h.texture_animations.offset, "texture animations");
-    // 7 more arrays (56 bytes), then the 14 floats: radius is the 7th
-    let floats_at = tex_anim_at + 8 + 56;
-    assert!(w32(floats_at + 24) == h.bounding_sphere_radius.to_bits(), "bounding sphere radius");
-    // 3 + 6 + 2 arrays after the floats; particle emitters last
-    let pe_at = floats_at + 56 + 24 + 48 + 8;
-    assert!(w32(pe_at) == h.particle_emitters.count && w32(pe_at + 4) == h.particle_emitters.offset, "particle emitters");
-    let mut o = pe_at + 8;
-    assert!(o == if old { 324 } else { 304 }, "size of the fixed part: 0x144 up to 263, 0x130 from 264");
-    if let Some(ref a) = h.blend_map_overrides { assert!(w32(o) == a.count && w32(o + 4) == a.offset, "blend map overrides"); o += 8; }
-    if let Some(ref a) = h.texture_combiner_combos { assert!(w32(o) == a.count && w32(o + 4) == a.offset, "texture combiner combos"); o += 8; }
-    if let Some(ref a) = h.texture_transforms { assert!(w32(o) == a.count && w32(o + 4) == a.offset, "texture transforms"); o += 8; }
-    assert!(n == o, "bytes written = fixed part + 8 per present optional array");
-    core::mem::forget(h);
 }
